@@ -143,14 +143,14 @@ PROPS = {
     'C19': {
         'scale': {'quick': 2, 'thorough': 3},
         'level': 'exploration',
-        'technique': 'round-trip monitor over a family of harness-defined serde types (by value and by reference) + refusal monitor for unrepresentable keys + print prediction by an independent model serializer',
+        'technique': 'round-trip monitor over a family of harness-defined serde types (by value, by reference, and through filter/function argument conversion) + refusal monitor for unrepresentable keys and out-of-range arguments + print prediction by an independent model serializer',
         'claim': '72 Rust types built from the serde data model (all integer widths, f32/f64, bool, char, String, unit, Option, Vec, tuples 1-4, BTreeMap/HashMap with String/every integer width/char/bool/unit-enum keys, '
                  'named/tuple/newtype/unit structs, enums with unit/newtype/tuple/struct variants, nesting depth <= 4) are generated with boundary numbers, multi-byte text and empty/50-entry collections; each instance must '
                  'deserialize back to itself from Value and from &Value (floats by bits), print exactly what a second, independent Serializer into the model value type predicts (integers exact, maps sorted), identically through '
-                 'Context::insert, insert_value(converted) and from_serialize; maps with float/tuple/struct/unit/none/bytes/seq/map keys must be refused. Context::from_serialize of top-level maps with integer/bool/char/string keys must equal inserting each entry under the text of the key, and a top level that is no map or struct must be refused.',
+                 'Context::insert, insert_value(converted) and from_serialize; maps with float/tuple/struct/unit/none/bytes/seq/map keys must be refused. Context::from_serialize of top-level maps with integer/bool/char/string keys must equal inserting each entry under the text of the key, and a top level that is no map or struct must be refused. Also: types whose Serialize impl hands over a string that only lives for the call (Ipv6Addr, SocketAddrV6, a hex digest formatted on the stack, collect_str), alone, in sequences, tuples, map values and map keys; and the third way back — a number given in any width or as a float, read as each of the 12 integer types, f32, f64, bool and String through a registered filter receiver, a keyword argument and TryFrom<Value> (exact value when it fits, refusal otherwise, never an altered number), sequences read element-wise, and a 10-field struct passed as keyword arguments and read back with Kwargs::deserialize.',
         'note': 'Option<T> is only generated for payloads that cannot themselves serialise to none (the collapse the property excludes); the model serializer shares only the serde traits with the engine',
         'rule': "one evaluation = one conversion, read-back or render; a cell = (type, by-value/by-reference) for round trips and (bad key kind, top/nested) for refusals",
-        'must_observe': ['roundtrips_ok', 'print_comparisons', 'unrepresentable_keys_refused', 'top_level_maps_compared', 'non_map_top_levels_refused'],
+        'must_observe': ['roundtrips_ok', 'print_comparisons', 'unrepresentable_keys_refused', 'top_level_maps_compared', 'non_map_top_levels_refused', 'argument_readbacks', 'argument_structs_read_back'],
     },
     'C18': {
         'scale': {'quick': 0.6, 'thorough': 1},
